@@ -211,6 +211,13 @@ func Apply(s *State, op Op) (int, error) {
 			return Failed, err
 		}
 	case "midpoint":
+		// the midpoint of a tree with negative branch lengths is not defined by the property (a
+		// longest path of negative length has no middle): not called
+		for _, e := range t.Edges() {
+			if e.Length() < 0 && e.Length() != tree.NIL_LENGTH {
+				return Skipped, nil
+			}
+		}
 		if err := t.RerootMidPoint(); err != nil {
 			return Failed, err
 		}
